@@ -191,9 +191,10 @@ CLAIMS = {
                 'value decodes to it (no side condition for 46 of the 49 schemas of the repository); a value beyond a limit is refused by the encoder or its '
                 'encoding is refused by the decoder; whatever a decoder accepts is within the declared limits (64 keys, 2048-byte keys and ENRs, 32 ENRs, 256 '
                 'distances, 1100-byte payload, 2-byte connection id: one corollary per wire message; every ping payload fits PING); whatever the ideal decoder '
-                'accepts re-encodes to the same bytes, and so does whatever today\'s decoders accept for 38 of the 49 types. The three ways today\'s decoders are '
-                'not canonical / do not round-trip (00000000 taken for an empty list by fastssz; trailing bytes ignored by fixed-size ztyp containers; the empty '
-                'PortalReceipts / EphemeralHeaderPayload refused) are switches of the model with decided witnesses, reported as known findings. The model is tied '
+                'accepts re-encodes to the same bytes, and so does whatever today\'s decoders accept for 38 of the 49 types. The two ways today\'s decoders are '
+                'not canonical (00000000 taken for an empty list by fastssz; trailing bytes ignored by fixed-size ztyp containers) are switches of the model with '
+                'decided witnesses, reported as known findings; the third deviation found (the empty PortalReceipts / EphemeralHeaderPayload refused by its own '
+                'decoder) was repaired in /repo (308affd) and the run compares with that switch off. The model is tied '
                 'to the Go code on every run by step equality in both directions on ~26k generated values and byte strings for 49 types (history, beacon keys and '
                 'state included), every limit probed at max and max+1; the fork-tagged beacon containers are checked Go-side.',
         'note': TB + 'schemas are transcribed by hand (no extractor); fastssz/ztyp helpers are re-modelled; the zrnt light-client objects inside the beacon wrappers '
@@ -208,7 +209,9 @@ CLAIMS = {
                 'with the response code of the request, and the only peer-bounded loop makes at most stored+1 look-ups; for each unguarded access a decided '
                 'witness input reaches panic at the named site. The real code is compared by outcome class on ~14k generated inputs per run (168k in the thorough tier) (boundary '
                 'lengths, all codes/selectors, mutations, random) against real adapters over pebble, and attacked over the in-memory discv5 link in child '
-                'processes (empty TALKREQ, empty keys, short summaries keys kill the unrepaired node; uTP packet fuzz followed by a real transfer).',
+                'processes (empty TALKREQ, empty keys, short summaries keys, which killed the node before the repairs; uTP packet fuzz followed by a real transfer). '
+                'All 16 accesses are now guarded in /repo (fix commits in known_findings.json): the run compares the real code with the model with every switch '
+                'off, and any panic, wedge or dead child process is a violation.',
         'note': TB + 'partial: panics or blocking inside dependencies (rlp, zrnt/ztyp, blst, pebble, utp-go) are only sampled; validators and the state adapter\'s Put are '
                 'modelled by shape, not byte for byte; blocking of the uTP talk handler on a full 1024-slot channel and send-on-closed-channel after Stop are not exhibited. '
                 'On the unrepaired tree the check fails with one clause per site (no_panic@<function>:<kind>, no_remote_kill@...), which is the finding.',
